@@ -14,6 +14,15 @@ import (
 var gpuPageChoices = []int{16, 16, 17, 24, 32, 32, 48, 64, 100, 128, 256}
 var gpuPageChoicesPow2 = []int{16, 16, 32, 32, 64, 128, 256}
 
+// flavour "unified": 2-4 roomy GPUs, unified devices created right after the
+// first Init, operations aimed at them. "unified-small": the same over GPUs
+// of a few pages, so that full member GPUs and full unified devices are the
+// normal state.
+var gpuPageChoicesRoomy = []int{32, 48, 64, 64, 100, 128, 256}
+var gpuPageChoicesRoomyPow2 = []int{32, 64, 64, 128, 256}
+var gpuPageChoicesSmall = []int{4, 6, 8, 8, 12, 16, 17}
+var gpuPageChoicesSmallPow2 = []int{4, 8, 8, 16}
+
 func genScenario(r *vlib.PRNG, idx int, buddy bool, steps int) *scenario {
 	sc := &scenario{Name: fmt.Sprintf("h%d", idx), Buddy: buddy}
 	if buddy {
@@ -22,12 +31,27 @@ func genScenario(r *vlib.PRNG, idx int, buddy bool, steps int) *scenario {
 	} else {
 		sc.Log2Page = uint64(12 + r.Intn(5))
 	}
+	switch idx % 8 {
+	case 1, 5:
+		sc.Focus = "unified"
+	case 2:
+		sc.Focus = "unified-small"
+	}
 	n := 1 + r.Intn(4)
+	choices, choices2 := gpuPageChoices, gpuPageChoicesPow2
+	switch sc.Focus {
+	case "unified":
+		n = 2 + r.Intn(3)
+		choices, choices2 = gpuPageChoicesRoomy, gpuPageChoicesRoomyPow2
+	case "unified-small":
+		n = 2 + r.Intn(3)
+		choices, choices2 = gpuPageChoicesSmall, gpuPageChoicesSmallPow2
+	}
 	for i := 0; i < n; i++ {
 		if buddy {
-			sc.GPUPages = append(sc.GPUPages, gpuPageChoicesPow2[r.Intn(len(gpuPageChoicesPow2))])
+			sc.GPUPages = append(sc.GPUPages, choices2[r.Intn(len(choices2))])
 		} else {
-			sc.GPUPages = append(sc.GPUPages, gpuPageChoices[r.Intn(len(gpuPageChoices))])
+			sc.GPUPages = append(sc.GPUPages, choices[r.Intn(len(choices))])
 		}
 	}
 	sc.MaxProc = 1 + r.Intn(4)
@@ -36,11 +60,10 @@ func genScenario(r *vlib.PRNG, idx int, buddy bool, steps int) *scenario {
 	}
 	sc.Steps = steps/2 + r.Intn(steps+1)
 	sc.FreeMode = []string{"lifo", "fifo", "random"}[r.Intn(3)]
-	switch idx % 4 {
-	case 0: // unsteered
-	case 1:
-		sc.Steer = steer{NoMultiPageFree: true}
-	default:
+	// The steering switches were introduced while two FreeMemory defects were
+	// open (both repaired since); a quarter of the histories keep them so
+	// that a regression there cannot mask everything else.
+	if idx%4 == 3 {
 		sc.Steer = steer{NoMultiPageFree: true, NoCrossPIDFree: true}
 	}
 	sc.GenSeed = r.Uint64() | 1
@@ -162,6 +185,130 @@ func (g *generator) realGPUs() []int {
 	return out
 }
 
+func (g *generator) unifiedDevs() []int {
+	var out []int
+	for _, d := range g.w.devs {
+		if d.kind == devUnified {
+			out = append(out, d.id)
+		}
+	}
+	return out
+}
+
+func (g *generator) focused() bool { return g.w.sc.Focus != "" }
+
+// pickTarget: a device id of any kind the API admits as a target: the CPU
+// (device 0; SelectGPU / Remap / Distribute only check the id against the
+// device list), an actual GPU, or a unified device.
+func (g *generator) pickTarget(allowCPU bool) int {
+	r := g.r
+	uni := g.unifiedDevs()
+	x := r.Intn(100)
+	pUni, pCPU := 20, 8
+	if g.focused() {
+		pUni, pCPU = 58, 6
+	}
+	if len(uni) > 0 && x < pUni {
+		return uni[r.Intn(len(uni))]
+	}
+	if allowCPU && x >= 100-pCPU {
+		return 0
+	}
+	return 1 + r.Intn(g.w.numGPU())
+}
+
+// pickPagesFor: a page count for an operation aimed at dev. For a unified
+// device of k members the interesting counts are those around multiples of k.
+func (g *generator) pickPagesFor(dev int) int {
+	k := g.w.kOf(dev)
+	if k < 2 || g.r.Chance(1, 4) {
+		return g.pickPages()
+	}
+	c := []int{1, k - 1, k, k + 1, 2*k - 1, 2 * k, 2*k + 1, 3*k + 1, 1 + g.r.Intn(3*k)}
+	n := c[g.r.Intn(len(c))]
+	if n < 1 {
+		n = 1
+	}
+	return n
+}
+
+// someUnifiedOr: a unified device if one exists (for sizing buffers), else dev.
+func (g *generator) someUnifiedOr(dev int) int {
+	if uni := g.unifiedDevs(); len(uni) > 0 {
+		return uni[g.r.Intn(len(uni))]
+	}
+	return dev
+}
+
+// genUnify: member list for CreateUnifiedGPU: distinct actual GPUs (the API
+// rejects anything else), 1..all of them; focused flavours prefer >= 2.
+func (g *generator) genUnify(c int) op {
+	r := g.r
+	gp := g.realGPUs()
+	perm := r.Perm(len(gp))
+	k := 1 + r.Intn(len(gp))
+	if g.focused() && len(gp) >= 2 && !r.Chance(1, 10) {
+		k = 2 + r.Intn(len(gp)-1)
+	}
+	var devs []int
+	for i := 0; i < k; i++ {
+		devs = append(devs, gp[perm[i]])
+	}
+	return op{K: kUnify, C: c, Devs: devs}
+}
+
+// remapRoom: may n pages be re-homed onto dev by one request?
+//
+//	safe:  yes whatever member GPU a unified device picks (every member has room)
+//	tight: the unified device has room in total, but not every member has
+func (g *generator) remapRoom(dev, n int) (safe, tight bool) {
+	w := g.w
+	d := w.devs[dev]
+	if d.kind != devUnified {
+		return w.canTake(dev, n, true), false
+	}
+	safe = true
+	for _, m := range d.members {
+		if !w.canTake(m, n, true) {
+			safe = false
+		}
+	}
+	if safe {
+		return true, false
+	}
+	return false, !w.sc.Buddy && w.freePages(dev) >= n
+}
+
+// distList: the GPU list of a Distribute: any devices, in any order, with
+// repetitions.
+func (g *generator) distList() []int {
+	r := g.r
+	if !g.focused() && r.Bool() {
+		// distinct actual GPUs
+		gp := g.realGPUs()
+		perm := r.Perm(len(gp))
+		k := 1 + r.Intn(len(gp))
+		var devs []int
+		for i := 0; i < k; i++ {
+			devs = append(devs, gp[perm[i]])
+		}
+		return devs
+	}
+	l := 2 + r.Intn(4)
+	if r.Chance(1, 10) {
+		l = 1
+	}
+	var devs []int
+	for i := 0; i < l; i++ {
+		if i > 0 && r.Chance(1, 6) {
+			devs = append(devs, devs[r.Intn(len(devs))]) // explicit repetition
+			continue
+		}
+		devs = append(devs, g.pickTarget(true))
+	}
+	return devs
+}
+
 // next returns the next step; remaining = steps left in the budget.
 func (g *generator) next(remaining int) (op, bool) {
 	w := g.w
@@ -182,15 +329,32 @@ func (g *generator) next(remaining int) (op, bool) {
 		}
 	}
 	if len(w.ctxs) == 0 {
+		if g.focused() {
+			// unified devices first: 1-3 of them (member lists may overlap)
+			nu := 1 + r.Intn(3)
+			for i := 0; i < nu; i++ {
+				g.pending = append(g.pending, g.genUnify(0))
+			}
+		}
 		return op{K: kInit, C: 0}, true
+	}
+	// operation weights (cumulative, out of 100)
+	//            alloc allocu free remap dist select init initpid unify  (rest: fill episode)
+	wt := [...]int{34, 38, 58, 66, 73, 81, 84, 87, 90}
+	if g.focused() {
+		wt = [...]int{26, 29, 43, 64, 77, 88, 90, 93, 94}
 	}
 	for attempt := 0; attempt < 40; attempt++ {
 		c := r.Intn(len(w.ctxs))
 		cs := w.ctxs[c]
 		x := r.Intn(100)
 		switch {
-		case x < 34: // alloc
-			n := g.pickPages()
+		case x < wt[0]: // alloc on the context's current device
+			n := g.pickPagesFor(cs.cur)
+			if g.focused() && w.devs[cs.cur].kind != devUnified && r.Bool() {
+				// buffers sized for later remaps onto a unified device
+				n = g.pickPagesFor(g.someUnifiedOr(cs.cur))
+			}
 			if !w.canTake(cs.cur, n, false) {
 				n = 1
 				if !w.canTake(cs.cur, 1, false) {
@@ -198,34 +362,65 @@ func (g *generator) next(remaining int) (op, bool) {
 				}
 			}
 			return op{K: kAlloc, C: c, Size: g.pickSize(n)}, true
-		case x < 38: // unified-memory allocation (always placed on GPU 1)
+		case x < wt[1]: // unified-memory allocation (always placed on GPU 1)
 			n := g.pickPages()
 			if !w.canTake(1, n, false) {
 				continue
 			}
 			return op{K: kAllocU, C: c, Size: g.pickSize(n)}, true
-		case x < 58: // free
+		case x < wt[2]: // free
 			if s, ok := g.pickFree(c); ok {
 				return op{K: kFree, C: c, Buf: s}, true
 			}
-		case x < 66: // remap a page-aligned sub-range of a live buffer
-			s, ok := g.liveBufOf(c)
-			if !ok {
+		case x < wt[3]: // remap a page-aligned sub-range of a live buffer
+			dev := g.pickTarget(true)
+			want := g.pickPagesFor(dev)
+			// a live buffer of the context with at least `want` pages if there is one
+			var big, all []int
+			for _, s := range cs.bufs {
+				if b := w.bufs[s]; b.live {
+					all = append(all, s)
+					if len(b.pages) >= want {
+						big = append(big, s)
+					}
+				}
+			}
+			if len(all) == 0 {
 				continue
 			}
-			b := w.bufs[s]
-			off := r.Intn(len(b.pages))
-			n := 1 + r.Intn(len(b.pages)-off)
-			dev := 1 + r.Intn(w.numGPU())
-			if !w.canTake(dev, n, true) {
+			var s, off, n int
+			if len(big) > 0 && w.kOf(dev) >= 2 {
+				s = big[r.Intn(len(big))]
+				n = want
+				off = r.Intn(len(w.bufs[s].pages) - n + 1)
+			} else if w.kOf(dev) >= 2 && g.focused() && !w.sc.Buddy && r.Chance(2, 3) {
+				// no buffer of the context is long enough: allocate one of
+				// exactly `want` pages and re-home it next (room for both on
+				// every GPU involved, whatever the driver picks)
+				if !w.canTake(cs.cur, want, false) {
+					continue
+				}
+				if safe, _ := g.remapRoom(dev, 2*want); !safe {
+					continue
+				}
+				g.pending = append(g.pending, op{K: kRemap, C: c, Buf: len(w.bufs), Off: 0, Size: uint64(want) * w.ps, Dev: dev})
+				return op{K: kAlloc, C: c, Size: g.pickSize(want)}, true
+			} else {
+				s = all[r.Intn(len(all))]
+				b := w.bufs[s]
+				off = r.Intn(len(b.pages))
+				n = 1 + r.Intn(len(b.pages)-off)
+			}
+			safe, tight := g.remapRoom(dev, n)
+			if !safe && !(tight && r.Chance(1, 6)) {
 				continue
 			}
 			size := uint64(n) * w.ps
 			if r.Chance(1, 3) {
 				size -= uint64(r.Intn(int(w.ps)))
 			}
-			return op{K: kRemap, C: c, Buf: s, Off: uint64(off), Size: size, Dev: dev}, true
-		case x < 73: // distribute a whole buffer
+			return op{K: kRemap, C: c, Buf: s, Off: uint64(off), Size: size, Dev: dev, Tight: !safe}, true
+		case x < wt[4]: // distribute a whole buffer
 			if w.sc.Buddy {
 				continue
 			}
@@ -234,48 +429,44 @@ func (g *generator) next(remaining int) (op, bool) {
 				continue
 			}
 			b := w.bufs[s]
-			gp := g.realGPUs()
-			perm := r.Perm(len(gp))
-			k := 1 + r.Intn(len(gp))
-			var devs []int
+			devs := g.distList()
 			fits := true
-			for i := 0; i < k; i++ {
-				devs = append(devs, gp[perm[i]])
-				// the split is the implementation's business: demand room
-				// for the whole buffer on every GPU named
-				if k > 1 && !w.canTake(gp[perm[i]], len(b.pages), false) {
-					fits = false
+			if len(devs) > 1 {
+				// the split is the implementation's business: demand room for
+				// the whole buffer on every GPU that can be reached through
+				// the list
+				for _, dv := range devs {
+					for _, m := range w.physOf(dv) {
+						if !w.canTake(m, len(b.pages), false) {
+							fits = false
+						}
+					}
 				}
 			}
 			if !fits {
 				continue
 			}
 			return op{K: kDist, C: c, Buf: s, Devs: devs}, true
-		case x < 81: // select a device (GPU or unified)
-			dev := 1 + r.Intn(len(w.devs)-1)
-			return op{K: kSelect, C: c, Dev: dev}, true
-		case x < 84:
+		case x < wt[5]: // select a device (CPU, GPU or unified)
+			return op{K: kSelect, C: c, Dev: g.pickTarget(true)}, true
+		case x < wt[6]:
 			if g.distinctPIDs() < w.sc.MaxProc {
 				return op{K: kInit, C: len(w.ctxs)}, true
 			}
-		case x < 87:
+		case x < wt[7]:
 			if len(w.ctxs) < 6 {
 				return op{K: kInitPID, C: len(w.ctxs), From: c}, true
 			}
-		case x < 90:
-			nUni := len(w.devs) - 1 - w.numGPU()
-			if nUni < 2 {
-				gp := g.realGPUs()
-				perm := r.Perm(len(gp))
-				k := 1 + r.Intn(len(gp))
-				var devs []int
-				for i := 0; i < k; i++ {
-					devs = append(devs, gp[perm[i]])
-				}
-				return op{K: kUnify, C: c, Devs: devs}, true
+		case x < wt[8]:
+			maxUni := 2
+			if g.focused() {
+				maxUni = 3
 			}
-		default: // fill a GPU to the brim, then free k / re-allocate k
-			dev := 1 + r.Intn(w.numGPU())
+			if len(g.unifiedDevs()) < maxUni {
+				return g.genUnify(c), true
+			}
+		default: // fill a GPU or a unified device to the brim, then free k / re-allocate k
+			dev := g.pickTarget(false)
 			if w.devs[dev].inexact {
 				continue
 			}
@@ -284,8 +475,14 @@ func (g *generator) next(remaining int) (op, bool) {
 				continue
 			}
 			g.pending = append(g.pending, op{K: kSelect, C: c, Dev: dev})
-			for i := 0; i < f; i++ {
-				g.pending = append(g.pending, op{K: kAlloc, C: c, Size: g.pickSize(1)})
+			for f > 0 {
+				// single pages, on a unified device now and then a few pages at once
+				n := 1
+				if w.devs[dev].kind == devUnified && r.Chance(1, 4) {
+					n = 1 + r.Intn(min(f, 5))
+				}
+				g.pending = append(g.pending, op{K: kAlloc, C: c, Size: g.pickSize(n)})
+				f -= n
 			}
 			g.pending = append(g.pending, op{K: kProbe, C: c})
 			g.refill = &refillPlan{c: c, dev: dev}
@@ -320,7 +517,7 @@ func (g *generator) refillStep() (op, bool) {
 		on := true
 		for _, pg := range b.pages {
 			o := w.phys[pg.paddr]
-			if o == nil || o.dev != p.dev || (o.blk != nil && o.blk.npages > 1) {
+			if o == nil || !contains(w.physOf(p.dev), o.dev) || (o.blk != nil && o.blk.npages > 1) {
 				on = false
 			}
 		}
@@ -361,4 +558,13 @@ func (g *generator) refillStep() (op, bool) {
 	o := g.pending[0]
 	g.pending = g.pending[1:]
 	return o, true
+}
+
+func contains(l []int, x int) bool {
+	for _, y := range l {
+		if y == x {
+			return true
+		}
+	}
+	return false
 }
